@@ -65,7 +65,7 @@ def forward(e):
         return {k: v for k, v in e.items() if k not in ("random", "hex")}
     if ev == "Done":
         return {k: e[k] for k in ("ev", "sc", "cok", "sok", "cerr", "sha", "n")}
-    if ev in ("Rec", "Rebuilt"):
+    if ev in ("Rec", "Rebuilt", "AtSend"):
         return {k: v for k, v in e.items() if k != "hex"}
     return e
 
@@ -153,6 +153,9 @@ def canary(ctx, good):
     def flip_final(g):
         flip(g[-1])
 
+    def flip_raw_at_second_send(g):
+        flip([x for x in g if x["ev"] == "AtSend"][1])
+
     def other_random(g):
         o = next(x for x in g[0]["ops"] if x["op"] == "SetClientRandom")
         o["r"][0] = (o["r"][0] + 1) % 256
@@ -162,6 +165,7 @@ def canary(ctx, good):
           ("second-hello-byte", flip_last_hello, ("RawIsLastSent", None)),
           ("rebuilt-dropped", drop_rebuilt, ("order", "hello-written-without-rebuild")),
           ("final-raw-byte", flip_final, ("RawIsLastSent", None)),
+          ("raw-when-second-hello-written", flip_raw_at_second_send, ("WireIsRaw", "hello-differs-from-raw-when-written")),
           ("claimed-random", other_random, ("EditsVisible", "random"))]
     rows = []
     for i, (tag, f, _) in enumerate(vs):
@@ -207,16 +211,17 @@ def run(ctx):
 
     # ---- model checking: the repaired mechanism satisfies the invariants; the mechanism with RemoveSNIExtension as a
     # mere flag does not (sensitivity of EditsVisible); paths
-    asis = ctx.tlc("UConnBuild_MC", cfg="UConnBuild_MC_asis", workers=2, timeout=600)
-    if "EditsVisible" not in asis.violated:
-        raise vlib.Machinery("UConnBuild_MC_asis: EditsVisible is expected to fail for the flag-only RemoveSNIExtension, TLC says %r" % asis.violated)
+    def mc_asis():
+        asis = ctx.tlc("UConnBuild_MC", cfg="UConnBuild_MC_asis", workers=2, timeout=600)
+        if "EditsVisible" not in asis.violated:
+            raise vlib.Machinery("UConnBuild_MC_asis: EditsVisible is expected to fail for the flag-only RemoveSNIExtension, TLC says %r" % asis.violated)
+        return []
     if ctx.quick:
-        paths = gen_paths(ctx, "UConnBuild_MC", 12, 1500)[0]
-        deep_paths = gen_paths(ctx, "UConnBuild_MC_nosess", 4, 600)[0]
+        jobs = [mc_asis, lambda: gen_paths(ctx, "UConnBuild_MC", 10, 1500)[0], lambda: gen_paths(ctx, "UConnBuild_MC_nosess", 3, 600)[0]]
     else:
-        paths = gen_paths(ctx, "UConnBuild_MC_deep", 14, 3000)[0]
-        deep_paths = gen_paths(ctx, "UConnBuild_MC_alt", 8, 1500)[0]
-
+        jobs = [mc_asis, lambda: gen_paths(ctx, "UConnBuild_MC_deep", 12, 3000)[0], lambda: gen_paths(ctx, "UConnBuild_MC_alt", 4, 1500)[0]]
+    with cf.ThreadPoolExecutor(max_workers=3) as ex:
+        _, paths, deep_paths = [f.result() for f in [ex.submit(j) for j in jobs]]
     lap("model checking done")
     scns = []
     def add(p, i):
@@ -290,7 +295,11 @@ def run(ctx):
         for _ in range(len(scs) - 1):
             ctx.findings.append(dict(ctx.findings[-1]))
 
-    # ---- honesty: canary and vacuity (after the findings: a broken tree must not end as a machinery error)
+    # ---- honesty: vacuity and canary (after the findings: a broken tree must not end as a machinery error)
+    need = MUTATORS + CLAIMS + ["Build", "BuildNoSess", "ApplyPreset", "rebuilt", "ch1", "ch2", "hrr", "hrr_cookie", "done", "done_hrr", "seeded", "psk"]
+    missing = [k for k in need if totals.get(k, 0) == 0]
+    if missing and not ctx.findings:
+        raise vlib.Machinery("vacuous: never exercised / never judged: %r (statistics %r)" % (missing, totals))
     why = "no accepted scenario with an explicit build, SetClientRandom and a retried hello is available"
     if material:
         # the same scenario once more, every byte string logged in full: the canary corrupts recorded bytes
@@ -298,10 +307,6 @@ def run(ctx):
         why = canary(ctx, gs[0]) if is_canary_material(material[0], gs[0]) else "the canary scenario did not complete again"
     if why and not ctx.findings:
         raise vlib.Machinery("binding canary: " + why)
-    need = MUTATORS + CLAIMS + ["Build", "BuildNoSess", "ApplyPreset", "rebuilt", "ch1", "ch2", "hrr", "hrr_cookie", "done", "done_hrr", "seeded", "psk"]
-    missing = [k for k in need if totals.get(k, 0) == 0]
-    if missing and not ctx.findings:
-        raise vlib.Machinery("vacuous: never exercised / never judged: %r (statistics %r)" % (missing, totals))
     if totals.get("rebuilt", 0) != len(scns) and not ctx.findings:
         # every scenario has a server name and a usable spec: the internal rebuild must have been observed each time
         noreb = len(scns) - totals.get("rebuilt", 0)
@@ -348,7 +353,8 @@ def explain(kind, detail):
                 "noext": "an extension removed from UConn.Extensions is still in the rebuilt Hello.Raw",
                 "front": "the extensions inserted at the head of UConn.Extensions do not lead the rebuilt Hello.Raw"}.get(detail, detail)
     if kind == "WireIsRaw":
-        return "the first ClientHello record differs from Hello.Raw as rebuilt at handshake start"
+        return ("the first ClientHello record differs from Hello.Raw as rebuilt at handshake start" if detail.startswith("first")
+                else "a ClientHello record differs from what Hello.Raw held when it was written")
     if kind == "RawIsLastSent":
         return "after Handshake, Hello.Raw is not the last ClientHello sent (%s)" % detail
     if kind == "norm":
